@@ -36,7 +36,10 @@ def make_cfg(constants: dict, spec="Spec", invariants=(), properties=(), constra
              deadlock=False) -> str:
     lines = ["CONSTANTS"]
     for k, v in constants.items():
-        lines.append(f" {k} = {tla_value(v)}")
+        if isinstance(v, str) and v.startswith("<-"):
+            lines.append(f" {k} <- {v[2:].strip()}")      # substitution by a definition of the module
+        else:
+            lines.append(f" {k} = {tla_value(v)}")
     if init and next_:
         lines.append(f"INIT {init}")
         lines.append(f"NEXT {next_}")
